@@ -188,6 +188,7 @@ fn gen_file_case(c: &mut Choices) -> c01::Case {
     };
     let project = gen_project(c, &p);
     c01::Case {
+        golden: None,
         project,
         opts: RunOpts {
             mode: ModeS::Build,
@@ -336,7 +337,7 @@ impl Prop for C14 {
             match c {
                 Case::File(f) => super::reduce_project(&f.project)
                     .into_iter()
-                    .map(|p| Case::File(c01::Case { project: p, opts: f.opts.clone() }))
+                    .map(|p| Case::File(c01::Case { project: p, opts: f.opts.clone(), golden: None }))
                     .collect(),
                 _ => vec![],
             }
